@@ -84,6 +84,9 @@ fn encode_case<M: Serialize + std::fmt::Debug>(rep: &mut Report, name: &str, m: 
                 rep.violation("C05/call-encoding-differs-from-method-members-plus-set-flags", format!("{name} flags {set}: {} expected {want}", vnet::json::show(&b)), replay.clone());
             } else {
                 rep.count("call_encodings_ok");
+                if set == 5 {
+                    rep.sample(3, || json!({"call_encode": name, "flags": "oneway+upgrade", "encoded": vnet::json::show(&b)}));
+                }
             }
         }
     }
@@ -167,6 +170,9 @@ where
                         rep.violation("C05/call-method-decoded-differently-with-flags-present", format!("{name}: {d}: {m} vs {wm}"), replay);
                     } else {
                         rep.count("call_decodings_ok");
+                        if states == 23 {
+                            rep.sample(8, || json!({"call_decode": name, "document": d, "decoded_method": m}));
+                        }
                     }
                 }
                 (Err(_), Err(_)) => rep.count("call_decodings_refused_like_the_method_type"),
